@@ -196,6 +196,8 @@ func c12Run(t testing.TB, in c12In, slow int) c12Obs {
 
 	obs := c12Obs{Calls: []c12CallObs{}, Emitted: []c12Emit{}, Streams: []c12StreamObs{}, Taken: []int{}, Gated: []bool{}}
 	calls := map[int]*c12Call{}
+	submitted := map[int]*c12Bid{}
+	emittedH := map[int]bool{}
 	order := []int{}
 	rets := make(chan c12Ret, 64)
 	streams := map[int]*c12DecStream{}
@@ -332,6 +334,7 @@ func c12Run(t testing.TB, in c12In, slow int) c12Obs {
 			ctx := &c12Ctx{Context: parent, reached: make(chan struct{})}
 			c := &c12Call{h: op.H, cancel: cancel, state: 3}
 			calls[op.H] = c
+			submitted[op.H] = op.Bid
 			order = append(order, op.H)
 			bid := &preconfpb.Bid{TxHash: op.Bid.TxHash, BidAmount: op.Bid.Amount, BlockNumber: op.Bid.BN,
 				DecayStartTimestamp: op.Bid.DS, DecayEndTimestamp: op.Bid.DE, Digest: op.Bid.Digest}
@@ -378,12 +381,32 @@ func c12Run(t testing.TB, in c12In, slow int) c12Obs {
 				obs.Taken = append(obs.Taken, -1)
 				continue
 			}
-			r, ok := waitRet()
-			if !ok {
-				obs.Taken = append(obs.Taken, -2)
-				continue
+			var r c12Ret
+			if offered {
+				var ok bool
+				r, ok = waitRet()
+				if !ok {
+					obs.Taken = append(obs.Taken, -2)
+					continue
+				}
+				settleRet(r)
+			} else {
+				// a bid although no call is offering one (left behind by an earlier call): identify it by content
+				r.h = -2
+				for _, h := range order {
+					b := submitted[h]
+					if b != nil && !emittedH[h] && b.Amount == got.BidAmount && b.BN == got.BlockNumber && b.DS == got.DecayStartTimestamp &&
+						b.DE == got.DecayEndTimestamp && string(b.Digest) == string(got.BidDigest) && b.TxHash == strings.Join(got.TxHashes, ",") {
+						r.h = h
+						break
+					}
+				}
+				if r.h < 0 {
+					obs.Taken = append(obs.Taken, -2)
+					continue
+				}
 			}
-			settleRet(r)
+			emittedH[r.h] = true
 			obs.Taken = append(obs.Taken, r.h)
 			obs.Emitted = append(obs.Emitted, c12Emit{H: r.h, Bid: c12EBid{Txs: got.TxHashes, Amount: got.BidAmount,
 				BN: got.BlockNumber, Digest: got.BidDigest, DS: got.DecayStartTimestamp, DE: got.DecayEndTimestamp}})
@@ -657,6 +680,54 @@ func c12Generate(r *rand.Rand, class string) c12In {
 			}
 		}
 		return c12In{ops}
+	case "no-engine":
+		// hand-off abandoned while no engine is attached, then an engine attaches: nothing of the abandoned
+		// call may reach it, no entry may stay behind, decisions for it are ignored
+		ops := []c12Op{sub(1, c12GoodBid(r, 1, dA)), sub(2, c12GoodBid(r, 2, dB)), c12Op{Kind: "abandon", H: 1}}
+		if r.Intn(2) == 0 {
+			ops = append(ops, c12Op{Kind: "abandon", H: 2})
+		}
+		ops = append(ops, take, take, dec(0, dA, 1), dec(0, dB, []int32{1, 2}[r.Intn(2)]))
+		if r.Intn(2) == 0 {
+			ops = append(ops, sub(3, c12GoodBid(r, 3, dA)), take, dec(1, dA, 2))
+		}
+		return c12In{ops}
+	case "digest-variants":
+		// decisions whose digest is a zero-padded / prefixed / truncated / extended spelling of a pending digest
+		// are decisions for another digest: ignored; digests of 1..64 bytes including short ones
+		n := []int{1, 2, 3, 20, 31, 32, 32, 32}[r.Intn(8)]
+		d := make([]byte, n)
+		r.Read(d)
+		if r.Intn(3) == 0 {
+			d[0] = 0
+		}
+		vars := [][]byte{}
+		if n < 32 {
+			vars = append(vars, append(make([]byte, 32-n), d...), append([]byte{0}, d...))
+		}
+		if n <= 32 {
+			x := make([]byte, 1+r.Intn(32))
+			r.Read(x)
+			if len(x)+n <= 64 {
+				vars = append(vars, append(x, d...))
+			}
+			vars = append(vars, append(append([]byte{}, d...), 0))
+		}
+		if n > 1 {
+			vars = append(vars, d[1:], d[:n-1])
+		}
+		stExact := []int32{1, 2}[r.Intn(2)]
+		ops := []c12Op{sub(1, c12GoodBid(r, 1, d))}
+		if r.Intn(3) == 0 && len(vars) > 0 { // a second pending bid under a variant spelling
+			ops = append(ops, take, sub(2, c12GoodBid(r, 2, vars[0])), take)
+		} else {
+			ops = append(ops, take)
+		}
+		for _, v := range vars {
+			ops = append(ops, dec(r.Intn(2), v, 3-stExact))
+		}
+		ops = append(ops, dec(0, d, stExact))
+		return c12In{ops}
 	case "gated-streams":
 		// two decision streams race for one digest: the second lookup happens while the first stream is
 		// between its lookup and its callback
@@ -767,7 +838,7 @@ func TestVerifC12(t *testing.T) {
 	for i := 0; i < 40; i++ {
 		run("invalid-bid", c12Generate(e.rng, "invalid-bid"))
 	}
-	classes := []string{"single", "decisions", "equal-digests", "cancel", "gated-streams", "random", "random"}
+	classes := []string{"single", "decisions", "equal-digests", "cancel", "no-engine", "digest-variants", "gated-streams", "random", "random"}
 	for i := 0; i < e.N; i++ {
 		for _, c := range classes {
 			run(c, c12Generate(e.rng, c))
